@@ -8,6 +8,14 @@ def run_c03(res, tier):
     ast = load_ast()
     extra = {}
     extra["sel"] = sel.run_sel(res, ast)
+    import asmtab
+    extra["asm"] = asmtab.run_asm_table(res, ast)
+    asmtab.run_sel_width(res, ast)
+    import asmcore
+    asmcore.run_asm_core(res, ast, thorough=(tier == "thorough"))
+    import jit
+    jit.run_jit_rules(res, ast, ["CALL-SAVE", "CALL-PROTO", "JIT-TERM", "PROBE-SEQ", "PROBE-DIR-JIT", "ABI-OFFSETS",
+                                 "LIM-JIT", "FRAME", "BR-JIT"])
     return extra
 
 
